@@ -183,7 +183,7 @@ impl G {
     }
 
     /// scalar member value of type class `class`: "str" | "num" | "bool" | "null"
-    fn scalar(&mut self, class: &str, cast: &str) -> J {
+    pub fn scalar(&mut self, class: &str, cast: &str) -> J {
         match class {
             "str" => {
                 if cast == "str" && self.r.chance(1, 3) {
@@ -475,7 +475,7 @@ impl G {
     /// constants (or is left out), plus unrelated fields
     /// a value of the kind the rule's own predicates on this field expect (so nothing is missing
     /// or ill-kinded): string for patterns, number of the same kind for numbers, ...
-    fn kind_value(&mut self, hints: &[J]) -> J {
+    pub fn kind_value(&mut self, hints: &[J]) -> J {
         if hints.is_empty() {
             return s_node(&self.word(3, true));
         }
@@ -1015,6 +1015,92 @@ pub fn gen_cases(topic: &str, seed: u64, n: usize, path: &str) -> Result<(), Str
         let c: J = match topic {
             "lang" => json!({"topic":"lang","oracle":true,"wt":true,"src":src,"docs":docs,
                              "plan":{"tri":true,"sws":[[]]}}),
+            // C08: longer quantified lists with their explicit forms
+            "quant" => {
+                let class = *g.r.pick(&["str", "str", "str", "num", "bool"]);
+                let kmax = if class == "bool" { 2 } else { 6 };
+                let k = 1 + g.r.below(kmax);
+                let mut vs: Vec<J> = vec![];
+                while vs.len() < k {
+                    let v = g.scalar(class, "none");
+                    if !vs.contains(&v) {
+                        vs.push(v);
+                    } else if class == "bool" {
+                        break;
+                    }
+                }
+                if class == "str" && !g.r.chance(g.kf_pct, 100) {
+                    vs = avoid_partial_batch(vs);
+                }
+                let k = vs.len();
+                let form = g.r.below(5);
+                let n = g.r.below(k + 2) as u64;
+                let fld = |i: usize| if form >= 3 { format!("f{}", i) } else { "f".to_string() };
+                let ent = |m: &str, c: u64, f: &str, v: J| json!({"m":m,"c":c,"f":cps(f),"v":v});
+                let list = json!({"t":"list","vs":vs.clone()});
+                let (cond, body, mode): (J, J, &str) = match form {
+                    0 => (json!({"t":"id","n":cps("A")}), json!({"t":"map","es":[ent("none", 0, "f", list)]}), "any"),
+                    1 => (json!({"t":"id","n":cps("A")}), json!({"t":"map","es":[ent("all", 0, "f", list)]}), "all"),
+                    2 => (json!({"t":"id","n":cps("A")}), json!({"t":"map","es":[ent("of", n, "f", list)]}), "of"),
+                    3 => (json!({"t":"all","n":cps("A")}),
+                          json!({"t":"seq","ms":(0..k).map(|i| json!({"t":"map","es":[ent("none", 0, &fld(i), vs[i].clone())]})).collect::<Vec<_>>()}), "all"),
+                    _ => (json!({"t":"of","n":cps("A"),"c":n}),
+                          json!({"t":"seq","ms":(0..k).map(|i| json!({"t":"map","es":[ent("none", 0, &fld(i), vs[i].clone())]})).collect::<Vec<_>>()}), "of"),
+                };
+                let src = json!({"cond":cond,"ids":[[cps("A"), body]]});
+                // explicit form
+                let ids: Vec<J> = (0..k).map(|i| json!([cps(&format!("M{}", i)), {"t":"map","es":[ent("none", 0, &fld(i), vs[i].clone())]}])).collect();
+                let idn = |i: usize| json!({"t":"id","n":cps(&format!("M{}", i))});
+                let chain = |op: &str, xs: Vec<J>| xs.into_iter().reduce(|l, r| json!({"t":op,"l":l,"r":r})).unwrap();
+                let econd = match mode {
+                    "any" => chain("or", (0..k).map(idn).collect()),
+                    "all" => chain("and", (0..k).map(idn).collect()),
+                    _ => {
+                        if n == 0 {
+                            chain("and", (0..k).map(|i| json!({"t":"not","e":idn(i)})).collect())
+                        } else if n as usize > k {
+                            json!({"t":"and","l":idn(0),"r":{"t":"not","e":idn(0)}})
+                        } else {
+                            let mut terms = vec![];
+                            for mask in 0u32..(1 << k) {
+                                if mask.count_ones() as u64 == n {
+                                    let t = chain("and", (0..k).filter(|i| mask & (1 << i) != 0).map(idn).collect());
+                                    terms.push(if n > 1 { json!({"t":"par","e":t}) } else { t });
+                                }
+                            }
+                            chain("or", terms)
+                        }
+                    }
+                };
+                let alt = json!({"cond":econd,"ids":ids});
+                let mut docs = vec![];
+                for _ in 0..8 {
+                    let mut kv = vec![];
+                    let nf = if form >= 3 { k } else { 1 };
+                    for i in 0..nf {
+                        let hints: Vec<J> = if form >= 3 { vec![vs[i].clone()] } else { vs.clone() };
+                        if g.r.chance(1, 8) {
+                            continue;
+                        }
+                        let v = if class == "str" && form < 3 && g.r.chance(1, 2) {
+                            // a string containing several members' needles
+                            let mut t = String::new();
+                            for h in &hints {
+                                if g.r.chance(1, 2) {
+                                    t.push_str(&g.near(h));
+                                }
+                            }
+                            s_node(&t)
+                        } else {
+                            g.kind_value(&hints)
+                        };
+                        kv.push((fld(i), v));
+                    }
+                    docs.push(obj(kv));
+                }
+                json!({"topic":"quant","oracle":true,"wt":true,"src":src,"alts":[alt],"docs":docs,
+                       "plan":{"tri":false,"sws":[[]]}})
+            }
             // C10: dotted / indexed keys and nested mappings on documents with objects and arrays
             "path" => {
                 let segs = ["a", "b", "a[0]", "a[1]", "b[0]", "c"];
